@@ -179,6 +179,16 @@ JudgeDilPlan(c) ==
   }
 
 (***************************************************************************)
+(* C05: combine_composition = ideal volumetric mixing; unknown stays unknown*)
+(***************************************************************************)
+JudgeCombine(c) == {
+    Cl("C05.combine", c.aknown /\ c.bknown /\ c.va + c.vb > 0 /\ c.vb > 0,
+       c.out = "ok" /\ ~c.isnone /\ Range(c.res) = MixComp(Range(c.a), c.va, Range(c.b), c.vb)),
+    Cl("C05.combineunknown", ~c.aknown \/ ~c.bknown, c.out = "ok" /\ c.isnone),
+    Cl("C05.combinesane", c.out = "ok" /\ ~c.isnone /\ c.va + c.vb > 0, CompInUnit(Range(c.res)) /\ CompFunctional(Range(c.res)))
+  }
+
+(***************************************************************************)
 JudgeCall(c) ==
   CASE c.fn = "geom" -> JudgeGeom(c)
     [] c.fn = "tw"   -> JudgeTW(c)
@@ -192,6 +202,7 @@ JudgeCall(c) ==
     [] c.fn = "rand" -> JudgeRand(c)
     [] c.fn = "ctor" -> JudgeCtor(c)
     [] c.fn = "dilplan" -> JudgeDilPlan(c)
+    [] c.fn = "combine" -> JudgeCombine(c)
     [] OTHER -> {Cl("machinery.unknown_fn", TRUE, FALSE)}
 
 Init == ci = 1 /\ InitRegisters
